@@ -88,7 +88,13 @@ impl Knobs {
             // the range-filter scan rule requires first keys; off exercises the other path
             record_first_key: !rng.chance(1, 8),
             checksum: if rng.chance(1, 6) { 0 } else { 1 },
-            cache: if rng.chance(1, 3) { 0 } else { 262144 },
+            // Never small: moka evicts during housekeeping driven by the real clock (quanta/TSC,
+            // not interposable), so hit/miss would differ between replays. Cold-cache reads
+            // are exercised by reopening instead.
+            cache: {
+                let _ = rng.chance(1, 3);
+                262144
+            },
             io_backend: if rng.chance(1, 4) { 1 } else { 0 },
         }
     }
